@@ -301,19 +301,17 @@ func toSigned(p *channel.Params, tx channel.Transaction) SignedTx {
 func (h *Handle) Register(ctx context.Context, req channel.AdjudicatorReq, subs []channel.SignedState) error {
 	l := h.l
 	t := toSigned(req.Params, req.Tx)
-	ss := make([]SignedTx, len(subs))
-	for i, s := range subs {
-		ss[i] = SignedTx{Params: s.Params, State: s.State, Sigs: s.Sigs}
+	// entries without a state (the zero SignedState) cannot be looked up: they are dropped and the
+	// sub-allocation they were meant for is then missing
+	var ss []SignedTx
+	for _, s := range subs {
+		if s.State != nil && s.Params != nil {
+			ss = append(ss, SignedTx{Params: s.Params, State: s.State, Sigs: s.Sigs})
+		}
 	}
 	l.mu.Lock()
 	defer l.mu.Unlock()
 	c := Call{Tag: h.Tag, Kind: "register", Params: req.Params, Tx: t, Subs: ss, Clock: l.core.Clock}
-	for i := range ss {
-		if ss[i].State == nil || ss[i].Params == nil {
-			l.done(c, nil, ESubMissing)
-			return codeErr("register", ESubMissing)
-		}
-	}
 	evs, code := l.core.Register(t, ss)
 	l.done(c, evs, code)
 	return codeErr("register", code)
